@@ -11,7 +11,7 @@ package kvstore
 // a key no operation mentions is absent. The right-hand side does not depend on the previous index
 // (C01: the view is a function of the log only).
 //@ func (*kvIndex).UpdateIndex
-//@   props C06 C01
+//@   props C06 C01 C16
 //@   flag nilcalls
 //@   requires oplog != nil && i.index != nil
 //@   ghost E := valsOf(oplog)
